@@ -5,6 +5,7 @@ import TFV.Properties.Src.CommonRegion
 import TFV.Properties.Src.TreeMethods
 import TFV.Properties.Src.StandardX
 import TFV.Properties.Src.OnePointGP
+import TFV.Properties.Src.TreeCall
 #print axioms TFV.Tree.C09_scan_flat
 #print axioms TFV.Tree.C09_size_flat
 #print axioms TFV.Tree.C09_endSub
@@ -38,3 +39,6 @@ import TFV.Properties.Src.OnePointGP
 #print axioms TFV.SrcTie.C09_src_tree_get_levels
 #print axioms TFV.SrcTie.C09_src_tree_get_max_level
 #print axioms TFV.SrcTie.C09_src_tree_get_common_region
+#print axioms TFV.SrcTie.C09_src_tree_call
+#print axioms TFV.SrcTie.C09_src_tree_str
+#print axioms TFV.SrcTie.C09_src_tree_call_run
